@@ -1,8 +1,9 @@
 (* C18 - parallel execution: antismash/common/subprocessing/base.py parallel_function and
    parallel_execute over an abstract model of multiprocessing.Pool.{starmap_async,map_async}.
 
-   What is antiSMASH's: the `cpus` defaulting (`if not cpus`), the `cpus == 1` shortcut (a list
-   comprehension, timeout ignored), submitting all argument tuples at once, one `get(timeout)`,
+   What is antiSMASH's: the `cpus` defaulting (`if not cpus`), the `cpus == 1 and timeout is None`
+   shortcut (a list comprehension; with a timeout a pool of ONE worker is used, so that the timeout is
+   honoured - repair of finding C18-K2), submitting all argument tuples at once, one `get(timeout)`,
    TimeoutError -> RuntimeError, returning the list.
    What is CPython's (an assumption recorded here, tied by the correspondence run only):
      Pool(processes) raises ValueError for processes < 1;
@@ -172,10 +173,16 @@ Definition pool_map {A B} (f : A -> res B) (procs : Z) (timeout : option Z) (sch
 (* `if not cpus: cpus = get_config().cpus`: None and 0 are both falsy; cpus travels as an integer, 0 = not given *)
 Definition effective_cpus (cfg_cpus cpus : Z) : Z := if cpus =? 0 then cfg_cpus else cpus.
 
+(* `timeout is None` *)
+Definition no_timeout (timeout : option Z) : bool := match timeout with None => true | Some _ => false end.
+
+(* `if cpus == 1 and timeout is None: return [function( *argset) for argset in args]`: the in-process shortcut is
+   taken only when no timeout was asked for; with a timeout (0 included: `is None`, not a truth test) one worker
+   means a pool of one worker, and the timeout is honoured as for every other worker count *)
 Definition parallel_function {A B} (f : A -> res B) (cfg_cpus cpus : Z) (timeout : option Z)
            (sched : list event) (args : list A) : res (list B) :=
   let cpus := effective_cpus cfg_cpus cpus in
-  if cpus =? 1 then mapM f args       (* [function( *argset) for argset in args], ignores timeout *)
+  if (cpus =? 1) && no_timeout timeout then mapM f args
   else pool_map f cpus timeout sched args.
 
 (* parallel_execute: no shortcut; the runner (child_process) returns the command's return code *)
@@ -310,12 +317,12 @@ Definition tspec_ok (cfg_cpus cpus : Z) (timeout : option Z) (jobs : list (bool 
        | Err e => (any_exceeds fst timeout jobs && (e =? E_Runtime)) || existsb (raises_kind e) jobs
        end.
 
-(* finding C18-K2: the cpus == 1 shortcut of parallel_function never looks at the timeout, so a batch with a
-   job exceeding it (and no raising job) comes back as a list.  The class of inputs on which the guarded
-   theorems about parallel_function say nothing *)
-Definition finding_K2 (cfg_cpus cpus : Z) (timeout : option Z) (jobs : list (bool * res Z)) : bool :=
-  (effective_cpus cfg_cpus cpus =? 1) && any_exceeds fst timeout jobs &&
-  match sequential snd jobs with Ok _ => true | Err _ => false end.
+(* finding C18-K2 (REPAIRED): the cpus == 1 shortcut of parallel_function used to be taken before the timeout was
+   looked at, so a batch with a job exceeding it (and no raising job) came back as a list; the class was: one
+   effective worker, a job exceeding the timeout, no raising job.  After the repair no input is in a finding class
+   of the timeout clause: the theorems about parallel_function carry no guard, and fn 11 answers class 0 throughout
+   (the answer keeps its second number, so that the harness protocol is unchanged) *)
+Definition finding_K2 (cfg_cpus cpus : Z) (timeout : option Z) (jobs : list (bool * res Z)) : bool := false.
 
 (* ================================================================================================
    antismash/common/record_processing.py: pre_process_sequences, the caller of parallel_function
@@ -563,7 +570,7 @@ Definition run_C18 (fn : Z) (l : list Z) : list Z :=
            eRes eVals (parallel_execute snd cfg cpus timeout sched jobs)
          | _ => bad_input end
   | 11 => (* specification on the implementation's output (appended to the payload); second number: the
-             finding class the input belongs to (2 = C18-K2, 0 = none) *)
+             finding class the input belongs to (0 = none; 2 was C18-K2, repaired: never answered any more) *)
          match dPair dCase dResList l with
          | Some ((cfg, cpus, timeout, jobs, _, out), []) =>
            eBool (tspec_ok cfg cpus timeout jobs out) ++ [if finding_K2 cfg cpus timeout jobs then 2 else 0]
